@@ -85,6 +85,45 @@ def shard_container_layout(desc, rec):
             rec.violation("C06", "header:conformant-header-rejected", f"{type(ex).__name__}: {ex}",
                           {"driver": "layout", "what": "header", "n": n, "version": ver, "dates": hd})
         os.unlink(p)
+    # ---- the table entry a real add_block / replace_block / setter leaves in the file ---------------------
+    for i in range(max(6, desc["n"] // 40)):
+        p = str(d / f"w_{os.getpid()}_{i}.tdf")
+        kind = rng.choice(["data3D", "events", "emg", "platCal", "optical"])
+        b1 = lib.build(C.small_block_spec(rng, kind, 0), {})
+        b2 = lib.build(C.small_block_spec(rng, kind, 1), {})
+        c1 = C.rcomment(rng)
+        how = rng.choice(["replace", "replace", "set"]) if kind in C.SETTER else "replace"
+        c2 = rng.choice(["", "", None, C.rcomment(rng)]) if how == "replace" else None
+        case = {"driver": "layout", "what": "written-entry", "kind": kind, "first": c1, "how": how, "second": c2}
+        rec.case({"we": i, "k": kind, "c1": c1, "c2": c2, "how": how}, True)
+        Tdf.new(p)
+        try:
+            with Tdf(p).allow_write() as t:
+                t.add_block(b1, c1)
+            raw1 = open(p, "rb").read()
+            with Tdf(p).allow_write() as t:
+                if how == "replace":
+                    t.replace_block(b2, c2) if c2 is not None else t.replace_block(b2)
+                else:
+                    setattr(t, C.SETTER[kind], b2)
+            raw2 = open(p, "rb").read()
+        except Exception as ex:
+            rec.violation("C06", "written-entry:valid-request-refused", f"{type(ex).__name__}: {ex}", case, exc=ex)
+            os.unlink(p)
+            continue
+        os.unlink(p)
+        for raw, blk, cm, step in ((raw1, b1, c1, "add"), (raw2, b2, c2 if c2 is not None else c1, how)):
+            x = lib.enc(blk)
+            ent_raw = raw[rc.HEADER:rc.HEADER + rc.ENTRY]
+            got_e, _sp = rc.decode_entry(ent_raw)
+            want = {"type": rc.TYPE_CODES[kind], "format": lib.fmt_of(blk), "offset": rc.HEADER + rc.ENTRY * 14, "size": len(x),
+                    "cdate": int(blk.creation_date.timestamp()), "mdate": int(blk.last_modification_date.timestamp()),
+                    "adate": got_e["adate"], "comment": cm}
+            rec.count("oracle:C06.written-entry==reference")
+            if ent_raw != rc.encode_entry(want):
+                dff = rc.spec_diff(want, got_e) or "same fields, but the fixed-width comment field is not the text, its NUL and zero padding"
+                rec.violation("C06", "written-entry:differs-from-layout", f"after {step}: {dff}", case)
+                break
     # ---- Tdf.new vs the canonical empty container ------------------------------------------------
     for i in range(max(3, desc["n"] // 100)):
         p = str(d / f"n_{os.getpid()}_{i}.tdf")
@@ -156,6 +195,14 @@ def shard_container_scramble(desc, rec):
             os.unlink(p1); os.unlink(p2)
             continue
         rec.count("oracle:C12.container-independent-of-dontcare")
+        try:     # ... and the library's own comparison of the two files sees no difference either
+            with Tdf(p1) as t1_, Tdf(p2) as t2_:
+                same = bool(t1_ == t2_)
+            if not same:
+                rec.violation("C12", "container:comparison-depends-on-dontcare-bytes",
+                              "Tdf == Tdf is False for two files that differ only in don't-care bytes", case)
+        except Exception as ex:
+            rec.violation("C12", "container:dontcare-bytes-break-comparison", f"{type(ex).__name__}: {ex}", case, exc=ex)
         for k in ("header", "entries", "len"):
             if v1[k] != v2[k]:
                 rec.violation("C12", f"container:{k}-depends-on-dontcare-bytes", f"{v1[k]} != {v2[k]}", case)
